@@ -45,13 +45,15 @@ def strategy():
         for i in range(nf):
             l1 = draw(st.integers(15, 45))
             cig1 = draw(st.sampled_from(['M', 'M', 'M', 'I', 'D', 'S']))
-            r2 = draw(st.sampled_from(['none', 'near', 'near', 'far', 'overlap']))
-            gap = {'near': draw(st.integers(1, 8)), 'far': draw(st.integers(20, 90)), 'overlap': -draw(st.integers(1, 10)), 'none': 0}[r2]
+            r2 = draw(st.sampled_from(['none', 'near', 'near', 'far', 'overlap', 'nested']))
+            gap = {'near': draw(st.integers(1, 8)), 'far': draw(st.integers(20, 90)), 'overlap': -draw(st.integers(1, 10)), 'none': 0, 'nested': 0}[r2]
             frags.append({'l1': l1, 'cig1': cig1, 'r2': r2, 'gap': gap, 'l2': draw(st.integers(15, 40)),
                           'q': draw(st.sampled_from([20, 30, 30, 40]))})
         return {'ref': ref, 'method': method, 'rev': rev, 'site': site, 'frags': frags, 'errseed': errseed,
                 'conflict': conflict_q, 'max_N_span': draw(st.sampled_from([None, None, 0, 5, 50])),
-                'entry': draw(st.sampled_from(['deduplicate_majority', 'deduplicate_majority', 'write_pysam']))}
+                'entry': draw(st.sampled_from(['deduplicate_majority', 'deduplicate_majority', 'write_pysam'])),
+                # history: a consensus is requested when only the first k fragments are associated, then the molecule grows
+                'early_request': draw(st.sampled_from([None, None, None, 1, 2]))}
     return case()
 
 
@@ -85,12 +87,17 @@ def build(case):
         reads.append(dict(r1, reverse=rev, read2=False))
         if f['r2'] != 'none':
             e1 = s1 + sum(n for o, n in ops if o in 'MD')
-            if not rev:
+            l2 = f['l2']
+            if f['r2'] == 'nested':
+                # a (trimmed) R2 lying entirely inside R1
+                l2 = max(5, min(l2, (e1 - s1) - 6))
+                s2 = s1 + 3
+            elif not rev:
                 s2 = e1 + f['gap']
             else:
-                s2 = s1 - f['gap'] - f['l2']
-            s2 = max(0, min(L - f['l2'] - 1, s2))
-            r2 = mkseq(ref, s2, [('M', f['l2'])], rng, f['q'], case, fi, protect=None)
+                s2 = s1 - f['gap'] - l2
+            s2 = max(0, min(L - l2 - 1, s2))
+            r2 = mkseq(ref, s2, [('M', l2)], rng, f['q'], case, fi, protect=None)
             reads.append(dict(r2, reverse=not rev, read2=True))
         out.append(reads)
     return out
@@ -310,7 +317,14 @@ def eval_api(case):
             if not all(f.is_valid() for f in frs):
                 return out.label('skipped: generated fragment not valid')
             m = mcls(frs[0], reference=fasta)
-            for f in frs[1:]:
+            early = case.get('early_request')
+            for fi, f in enumerate(frs[1:], start=1):
+                if early is not None and fi == early:
+                    try:
+                        m.deduplicate_majority(Collector(h), 'early_request', max_N_span=case['max_N_span'])
+                        out.label('consensus requested before the molecule was complete')
+                    except Exception:
+                        pass
                 if not m.add_fragment(f):
                     return out.label('skipped: fragments not joinable')
             m.__finalise__()
